@@ -1,4 +1,5 @@
 import Proofs.Intern
+import Proofs.InternTrace
 import Plenc.Codec
 /-
   C19 — A string field tagged `intern` (including null.String) decodes, for every
@@ -368,6 +369,41 @@ example : (runTrace (init [[[7]], [[7]]])
 
 -- the mutex blocks: thread 1 cannot take the lock while thread 0 holds it
 example : runSchedule (init [[[1]], [[2]]]) [0,1,0,1,0,1, 0, 1] = none := by decide
+
+/-! ### recorded traces (the `interntrace` correspondence op) -/
+
+/-- a trace recorded at the yield points of the real codec that the model
+follows is an execution of the protocol … -/
+theorem trace_replay_reach (reqs : List (List Bytes)) (evs : List (Nat × TEv)) (s : State)
+    (h : conformT (init reqs) evs 0 = .ok s) : Reach (init reqs) s :=
+  conformT_reach h
+
+/-- … so the table reached satisfies the invariant, every answer given so far
+is a private copy of its request, and once every goroutine has finished the
+results are the requests (= what the plain codec returns). -/
+theorem trace_replay_sound (reqs : List (List Bytes)) (evs : List (Nat × TEv)) (s : State)
+    (h : conformT (init reqs) evs 0 = .ok s) :
+    Intern.Inv s.tbl ∧
+    (∀ (i : Nat) (t : Thread) (d : Bytes) (v : Str), s.threads[i]? = some t → (d, v) ∈ t.done →
+      v.bytes = d ∧ (∃ id, v.prov = .fresh id) ∧ ∀ buf, v.observe buf = d) ∧
+    (s.finished = true → s.results = reqs ∧ s.results = reqs.map plainSeq) := by
+  have hr := conformT_reach h
+  refine ⟨conc_inv reqs s hr, fun i t d v hi hd => ?_, conc_finished reqs s hr⟩
+  have := conc_results reqs s hr i t hi d v hd
+  exact ⟨this.1, this.2.1, this.2.2.1⟩
+
+-- non-vacuity: two goroutines decode the same new string at once; both miss,
+-- goroutine 0 gets the mutex and stores, goroutine 1 finds it on its second lookup
+example : (match conformT (init [[[7]], [[7]]])
+      [(0, .load), (1, .load), (0, .miss), (1, .miss), (0, .locked), (0, .store), (1, .locked)] 0 with
+    | .ok s => some (s.finished, s.keys, s.results)
+    | .error _ => none) = some (true, [[7]], [[[7]], [[7]]]) := by decide
+-- … and a trace the real code cannot produce is refused: goroutine 1 "arrives"
+-- behind the mutex while goroutine 0 still holds it
+example : (match conformT (init [[[7]], [[8]]])
+      [(0, .load), (1, .load), (0, .miss), (1, .miss), (0, .locked), (1, .locked)] 0 with
+    | .ok _ => none
+    | .error (k, _) => some k) = some 5 := by decide
 
 -- option erasure on a struct with an interned field, a nested struct with one, and a plain field
 example : (Ty.struct "T" [(1, "A", .str true), (2, "B", .struct "U" [(1, "X", .str true)]), (3, "C", .int 64)]).unintern
